@@ -67,6 +67,7 @@ typedef struct hx_runctx {
     int64_t offered_before[2]; /* value of offered[] before the data call that is running */
     chunk *q[2]; int qh[2], qn[2], qcap[2];
     int susp[2];
+    int resumed_empty;        /* the response side was resumed once although no request data was available */
     int zero_rounds;
     hx_buf calls;
     uint64_t sig;
@@ -910,17 +911,19 @@ static int feed(runctx *x, int d) {
         if (d == 0) st->data_other_in++; else st->data_other_out++;
         c->off += (uint32_t) consumed;
         x->susp[d] = 1;
-        if (consumed == 0) x->zero_rounds++; else x->zero_rounds = 0;
+        if (consumed == 0) x->zero_rounds++; else { x->zero_rounds = 0; x->resumed_empty = 0; }
         return 0;
     }
     x->zero_rounds = 0;
+    x->resumed_empty = 0;
     x->qh[d]++;
     return 1;
 }
 
 static void destroy_done(runctx *x) {
     htp_connp_t *p = x->connp;
-    for (size_t i = 0, n = htp_list_size(p->conn->transactions); i < n; i++) {
+    /* DESTROY_DONE == 2: streaming mode proper - disposal is left to tx_auto_destroy, the application only recycles the slots */
+    for (size_t i = 0, n = x->c->cfg[CF_DESTROY_DONE] == 2 ? 0 : htp_list_size(p->conn->transactions); i < n; i++) {
         htp_tx_t *tx = htp_list_get(p->conn->transactions, i);
         if (tx == NULL) continue;
         if (htp_tx_is_complete(tx) != 1) continue;
@@ -953,6 +956,15 @@ static void drain(runctx *x) {
             if (was) { x->susp[1] = 0; x->r->st.handover_resumes++; }
             if (x->c->cfg[CF_DESTROY_DONE]) destroy_done(x);
             mem_sample(x);
+        }
+        /* QUICK_START 2.2.6/2.2.7: after the response parser asked for the other direction, "feed to the parser all the
+         * request data you have", then "send unprocessed response data".  When there is no request data to feed, the second
+         * step follows at once (one attempt per hand-over; if the parser asks again without consuming anything the response
+         * side stays suspended until request data does arrive). */
+        if (x->susp[1] && !x->susp[0] && x->qh[0] >= x->qn[0] && x->qh[1] < x->qn[1] && !x->resumed_empty) {
+            x->susp[1] = 0;
+            x->resumed_empty = 1;
+            x->r->st.handover_resumes++;
         }
         /* response side: one chunk, then give the request side another chance */
         if (!x->susp[1] && x->qh[1] < x->qn[1]) {
